@@ -155,7 +155,8 @@ def run_inst(spec, run):
                     run.region("bound-tightened")
                 if "crossed-bounds" not in run.regions and ctx.query(z3.Or([lb[j] > ub[j] for j in range(nc)]))[0] == "sat":
                     run.region("crossed-bounds")
-                ext = None
+                edge = [l.e == -32768 for l in los if not z3.is_int_value(z3.simplify(l.e))] + [u.e == 32767 for u in his if not z3.is_int_value(z3.simplify(u.e))]
+                ext = z3.Or(edge) if edge else None
                 if spec.get("bigcoef"):
                     # float64 effects show where a bound divides exactly: bias the second validation sample there
                     ext = z3.Or([b[i].e % abs(A[i][j]) == 0 for i in range(nr) for j in range(nc) if abs(A[i][j]) > 3])
